@@ -43,6 +43,7 @@ def run(repo, chk):
     rule_c(repo, chk)
     rule_d(repo, chk)
     rule_e(repo, chk)
+    rule_f(repo, chk)
 
 
 def _queue_roles(repo):
@@ -395,3 +396,20 @@ def rule_e(repo, chk):
     ok = any('self' in pat.stores_attr(n, 'stopped', True) for n in walk_no_defs(s.node) if isinstance(n, ast.Assign))
     chk.ob('e', s.ref, 'Event.stop() sets the flag the dispatcher tests', ok, loc(s, s.node), discr='stop-sets-flag',
            nontrivial=False)
+
+
+def rule_f(repo, chk):
+    """Who may write the stop flag."""
+    from .common import attribute_writers
+    chk.rule('C02.f', 'the stop flag is written only by the event itself: False when it is created, True in stop() (nothing re-arms a stopped event)')
+    ev = repo.cls(EVENTS, 'Event')
+    ws = attribute_writers(repo, 'stopped')
+    n_ok = 0
+    for f, node, recv, val, m in ws:
+        where = f'{m.relpath}:{node.lineno}'
+        inside = f is not None and f.cls is not None and (f.cls is ev or ev in f.cls.mro()) and recv == 'self'
+        good = inside and ((f.name == '__init__' and val == 'False') or (f.name != '__init__' and val == 'True'))
+        n_ok += good
+        chk.ob('f', f.ref if f is not None else m.relpath, f'`{recv}.stopped = {val}` is the event creating (False) or stopping (True) itself', good, where,
+               discr=f'stop-flag-writer:{f.qualname if f is not None else "module"}:{val}')
+    chk.ob('f', f'{EVENTS}::Event', 'the event API sets the flag in stop() and clears it at creation', n_ok >= 2, EVENTS, discr='stop-flag-api')
